@@ -55,5 +55,5 @@ func nameCase(c *x509.Certificate) (term, tag string, ok bool) {
 	if len(c.DNSNames) == 0 {
 		view = strings.Replace(view, " [])", " (@nil bytes))", 1)
 	}
-	return fmt.Sprintf("(%s, %s)", view, cqList(sts)), strings.Join(tags, ""), true
+	return fmt.Sprintf("(%s, %s)", view, cqList(sts)), strings.Join(tags, "/"), true
 }
